@@ -673,7 +673,7 @@ def c05_r3(ctx):
                 if not e.dominated_by_edges(j.bb, {sl["none"]}):
                     ctx.viol((e.id, "join-before-spawn"), "a thread is joined before every thread of the plan was spawned (its dependents might never start)", j.where)
                     ok = False
-            if _iter_source_vars(e, jl) != hvec or any(st[0] == "truncate" for o in jl["iter"] for st in o[1:]):
+            if not _same_vector(e, _iter_source_vars(e, jl), hvec) or any(st[0] == "truncate" for o in jl["iter"] for st in o[1:]):
                 ctx.viol((e.id, "join-other-collection"), "the join loop does not traverse the vector of all handles", e.where(jl["header"]))
                 ok = False
             jo = e.origins_of_operand(j.args[0])
@@ -685,6 +685,24 @@ def c05_r3(ctx):
                 ok = False
             if ok:
                 ctx.ok()
+
+
+def _same_vector(fn, src, hvec):
+    """The loop's source is the handle vector itself, or a variable the whole handle vector was
+    moved into (returned by the spawning helper, handed to the joining helper): one creation
+    site, and the handle vector among the variables the value passed through."""
+    if src == hvec:
+        return True
+    if not src or not hvec or not all(v[0][0] == "var" and len(v) == 1 for v in src | hvec):
+        return False
+    def fam(vs):
+        out = set()
+        for v in vs:
+            out |= fn.var_family({"k": "copy", "place": {"local": v[0][1], "proj": []}})
+        return out
+    fs, fh = fam(src), fam(hvec)
+    roots = lambda f: {o for o in f if o[0][0] != "var"}
+    return hvec <= fs and roots(fs) == roots(fh) and len(roots(fs)) == 1
 
 
 def _deep(fn, op):
